@@ -4,6 +4,7 @@ import Proofs.GenTables
 #print axioms Xsel.C07.substring_spec_keep
 #print axioms Xsel.C07.substring_total
 #print axioms Xsel.C07.substring_nan
+#print axioms Xsel.C07.substring_zero_sign
 #print axioms Xsel.C07.substring_builtin
 #print axioms Xsel.C07.substring_examples
 #print axioms Xsel.C07.substring_unicode
